@@ -16,7 +16,7 @@ def truth(kind, **f):
 class _Probe:
     def run(self, *args, **kwargs):
         us = kwargs.pop('_user_states', None)
-        truth('run-enter', ident=get_ident())
+        truth('run-enter', ident=get_ident(), state=getattr(self, '_user_state', None))
         try:
             if us:
                 # assign user_state before / after the target as scripted
